@@ -34,7 +34,10 @@ XPrograms(unused) == XProgramsOver(GDecl, ProcDecl, Shapes, Pool)
 
 AsmItems == {"a", "b", "LDAC", "DATA 1", "DATA 99999999999999999999", "DATA -2147483649", "LDAC a", "BR b", "LDAM a", "LDBC b", "OPR", "OPR ADD", "OPR LDAC",
              "7", "-", "LDAC -", "FUNC a", "PROC", "PROC b", "LDAC 4294967296", "BRZ LDAC", "a a", "STAI -0", "# c", "LDAP a", "OPR a", "DATA a", "FUNC LDAC", "LDAC -2147483648", "LDAM 2147483648", "BR 6442450944", "LDAC 18446744073709551616"}
-AsmPrograms == UNION {[1..n -> AsmItems] : n \in 0..MaxAsmLen}
+\* sequences of four are formed over a core of twenty fragments (all of AsmItems would pass TLC's limit of a million set elements)
+AsmCore == {"a", "b", "LDAC", "DATA 1", "LDAC a", "BR b", "LDAM a", "OPR", "OPR ADD", "7", "-", "FUNC a", "PROC", "PROC b", "a a", "# c", "LDAP a", "DATA a",
+            "LDAC -2147483648", "BR 6442450944"}
+AsmPrograms == UNION {[1..n -> AsmItems] : n \in 0..(IF MaxAsmLen > 3 THEN 3 ELSE MaxAsmLen)} \cup (IF MaxAsmLen > 3 THEN [1..4 -> AsmCore] ELSE {})
 
 \* ---- scale: sources of the form  pre . rep^n . mid . postrep^n . post  ("@" in rep / postrep is the repetition index), for n in
 \* ScaleSizes.  Every recursion and every buffer of the tools is driven by one of these dimensions: nesting depth of each construct,
